@@ -49,7 +49,9 @@ class Parser:
 
     def _parse_file(self, path: Path) -> NamedModule | None:
         """Converts a given python file to an ast module and its name."""
-        absolute_path = path.resolve()
+        # absolute, but not resolved: like a directory, a file is excluded by the path it is found under, not by the path a
+        # symbolic link points to
+        absolute_path = Path(os.path.abspath(path))
         if self._file_should_be_parsed(absolute_path):
             # read as bytes: ast.parse then honours a byte order mark and an encoding declaration, as the interpreter does
             with open(absolute_path, "rb") as file:
